@@ -17,8 +17,8 @@ package schema
 //@   property C05
 //@   pure
 //@   requires adOK(ad)
-//@   at call Write#1: assert arg1 == bindex
-//@   at call Write#2: assert arg1 == ent
+//@   at call Write#1: assert content(arg1) == cidBytesOf(ite(ad.PreviousID != nil, str(as(ad.PreviousID, "cidlink.Link").Cid.str), str(cid.Undef.str)))
+//@   at call Write#2: assert content(arg1) == cidBytesOf(str(as(ad.Entries, "cidlink.Link").Cid.str))
 //@   at call WriteString#1: assert arg1 == ad.Provider
 //@   at call WriteString#2: assert arg1 == ad.Addresses[rangeindex]
 //@   at call Write#3: assert arg1 == ad.Metadata
@@ -33,8 +33,8 @@ package schema
 //@   pure
 //@   requires adOK(ad) && p != nil && ad.ExtendedProvider != nil
 //@   ensures old(ad.IsRm) ==> result1 != nil
-//@   at call Write#1: assert arg1 == bindex
-//@   at call Write#2: assert arg1 == ent
+//@   at call Write#1: assert content(arg1) == cidBytesOf(ite(ad.PreviousID != nil, str(as(ad.PreviousID, "cidlink.Link").Cid.str), str(cid.Undef.str)))
+//@   at call Write#2: assert content(arg1) == cidBytesOf(str(as(ad.Entries, "cidlink.Link").Cid.str))
 //@   at call WriteString#1: assert arg1 == ad.Provider
 //@   at call Write#3: assert arg1 == ad.ContextID
 //@   at call WriteString#2: assert arg1 == p.ID
